@@ -53,6 +53,9 @@ def find_class(name: str, default_module=None):
     raise KeyError(name)
 
 
+OPAQUES: dict = {}
+
+
 def decode(x, module=None):
     if isinstance(x, dict):
         if "$bytes" in x:
@@ -63,6 +66,12 @@ def decode(x, module=None):
             return set(decode(e, module) for e in x["$set"])
         if "$dict" in x:
             return {decode(k, module): decode(v, module) for k, v in x["$dict"]}
+        if "$opaque" in x:
+            key = x["$opaque"]
+            if key not in OPAQUES:
+                from replay.builders import _Endpoint
+                OPAQUES[key] = _Endpoint(key)
+            return OPAQUES[key]
         if "$builder" in x:
             from replay import builders
             return getattr(builders, x["$builder"])(**{k: decode(v, module) for k, v in x.items() if k != "$builder"})
@@ -134,7 +143,13 @@ def prepare(spec: dict):
     return reg, ctx, unit, c, mod, owner, fn
 
 
+INSTANCE: dict = {}
+
+
 def run(spec: dict) -> dict:
+    from pyvc.contracts import split_unit
+    INSTANCE.clear()
+    INSTANCE.update(split_unit(spec.get("unit", ""))[1])
     prep = prepare(spec)
     timeout = float(spec.get("timeout", 3))
     excl = spec.get("exclude_regions") or []
@@ -249,6 +264,7 @@ def scenario_search(prep, sp, rng, inst, timeout, excl):
 def judge(prep, inputs_json: dict, timeout: float, excl=()) -> dict:
     reg, ctx, unit, c, mod, owner, fn = prep
     is_init = unit.endswith(".__init__") and owner is not None
+    OPAQUES.clear()
     inputs = {k: decode(v, mod) for k, v in inputs_json.items() if not (is_init and k == "self")}
     if is_init:
         # the constructor runs on a fresh object; a 'self' in a solver model is the unconstrained pre-state
@@ -256,14 +272,20 @@ def judge(prep, inputs_json: dict, timeout: float, excl=()) -> dict:
         inputs = {k: v for k, v in inputs.items() if k != "self"}
         inputs["self"] = owner.__new__(owner)
     local = dict(inputs)
+    # a unit verified per type parameter (params declared '$NAME') only speaks about arguments of that class
+    for pname, ptxt in c.params.items():
+        if ptxt.startswith("$") and ptxt[1:] in INSTANCE and pname in inputs:
+            if type(inputs[pname]).__name__ != str(INSTANCE[ptxt[1:]]):
+                return {"status": "precondition-false", "clause": f"{pname} is not a {INSTANCE[ptxt[1:]]}"}
     # class invariants are part of the method's pre- and postcondition (same rule as the prover)
     inv = []
     if owner is not None and c.invariants:
         for q, cs in reg.classes.items():
             if q.split(":")[-1] == owner.__name__:
                 inv = list(cs.invariant)
-    requires = ([] if is_init else inv) + list(c.requires)
-    ensures = inv + list(c.ensures)
+    from pyvc.contracts import active_clauses
+    requires = ([] if is_init else inv) + active_clauses(c.requires, INSTANCE)
+    ensures = inv + active_clauses(c.ensures, INSTANCE)
     # 1. precondition
     try:
         for r in requires:
